@@ -1,10 +1,15 @@
 from pyvc.runner import register_modules
 
-register_modules("C09", "contracts.C04_hsms", "bounded.C09_api")
+register_modules("C09", "contracts.C04_hsms", "contracts.C09_link", "bounded.C09_api")
 LEVEL = "other"
 EXPLANATION = ("Proof of a necessary condition (the receiver thread never waits for missing bytes; complete frames are delivered; the "
-               "buffer cursor stays on frame boundaries) by VCs on the real framing loop, plus a bounded loopback pass over the real TCP "
+               "buffer cursor stays on frame boundaries; the link is reported closed only after the handlers of `connected` are done, "
+               "whatever they raise; the listening socket is closed before the receiver of the accepted link runs) by VCs on the "
+               "real framing loop and on the real close / accept sequences of the TCP classes, plus a bounded loopback pass over the real TCP "
                "connection classes for the liveness-flavoured clauses (disconnect handling finishes, reconnect, disable() returns), "
                "which no contract within reach expresses.")
 ASSUMPTIONS = ["assumed contracts of ByteQueue in the ghost-stream view (A-BQ-ABS), as C04", "thread stop-flag hand-shakes of the TCP classes: only exercised, not verified",
+               "assumed POSIX / CPython contracts of socket methods and threading.Event in contracts/C09_link.py (shutdown of a listening socket "
+               "fails only when it was closed before; close never raises; Event.wait() returns once the event is set); no other thread "
+               "clears the gate between the wait and the two close events (sequential reading of one thread)",
                "bounded: 8 cut offsets (thorough: every offset) of a 3-frame stream"]
